@@ -3,6 +3,7 @@ import numpy as np
 from hypothesis import strategies as st
 
 from vp import sut
+from vp.gens import weighted
 from vp.oracles import c07_delay as od
 
 ID = "C07"
@@ -37,7 +38,15 @@ RULE = ("Six case modes. basis: fshift applied to the complete impulse basis eye
         "int32 / uint16 samples, oracle = the parabola through the three samples actually passed), strided / reversed "
         "/ Fortran / read-only arguments where the unchanged tree accepts them, mixed float widths, repeated calls "
         "with the same objects and after a call on other data; generate_waveform with fs / velocity / decay omitted "
-        "(must equal the call spelling out the signature defaults) and with the default spike / default coordinates.")
+        "(must equal the call spelling out the signature defaults) and with the default spike / default coordinates. "
+        "Real-data scale (about 2.5 % of the quick, 2 % of the thorough Hypothesis cases, labels scale_*): fshift on 1-2 traces of "
+        "2^16..2^21 samples (2^k, 10^k, 3*2^k, their neighbours, primes, random lengths) carrying white noise (integer "
+        "shifts: == np.roll), impulses on / next to multiples of 2^16..2^21, 10^5, 10^6 (fractional: one Dirichlet kernel "
+        "placed at every impulse) or sinusoid sums, with scalar / composed / per-trace shifts that are or cross such "
+        "multiples; fshift on 2^15..2^17 waveforms of 32..128 samples with one seed-generated shift per waveform "
+        "(noise + integer shifts: gather oracle; sinusoid sums: closed form); parabolic_max on 2^16..2^21 rows; "
+        "shift_waveform on 2^13 / 10^4 (thorough: up to 2^16) spikes; wave_shift_corrmax on a long trace with spikes next to "
+        "the block boundaries. Same tolerances as the small cases.")
 EXHAUSTIVE_NOTE = ("all lengths n <= 256 (quick) / n <= 2048 (thorough) x axis {0,1} x dtype {f4,f8} on the full impulse "
                    "basis with a fixed list of shifts (all integer shifts in (-n,n) for n <= 32); the shift values "
                    "themselves (a continuum) and the N-D / layout / scalar-type combinations are sampled")
@@ -158,8 +167,8 @@ def _st_value(n):
 
 
 @st.composite
-def _st_scalar(draw, n):
-    v = draw(_st_value(n))
+def _st_scalar(draw, n, values=None):
+    v = draw(_st_value(n) if values is None else values)
     if isinstance(v, int):
         t = draw(st.sampled_from(["int", "float", "npf8", "npf4", "npi8", "npi4"]))
         v = int(v) if t in ("int", "npi8", "npi4") else float(v)
@@ -317,6 +326,174 @@ def _st_model(draw):
             "extra": draw(st.sampled_from([None, None, "omit", "defwxy", "defspike"]))}
 
 
+# ---- real-data scale (guide item 7): a rare class whose processing axis has the size of real data --------------
+# long: one or two traces of 2^16 .. 2^21 samples (round lengths, their neighbours, lengths with large prime factors)
+# through fshift; batch: 2^15 .. 2^17 waveforms of 32..128 samples through fshift with one shift per waveform;
+# parabola: 2^16 .. 2^21 rows through parabolic_max; cluster: 2^13, 10^4 (thorough: .. 2^16) spikes through
+# shift_waveform; corrmax: a long trace with spikes next to the seams through wave_shift_corrmax. Positions, lengths
+# and shifts sit on and next to multiples of these block sizes (a later "process in blocks of 2^20 / 10^6" change
+# introduces a seam that inputs of a few hundred samples never cross).
+_SEAMS = [2 ** 16, 2 ** 17, 2 ** 18, 2 ** 19, 2 ** 20, 2 ** 21, 10 ** 5, 10 ** 6, 2 * 10 ** 6]
+_LONG_ROUND = [2 ** 16, 10 ** 5, 2 ** 17, 2 ** 18, 3 * 2 ** 17, 2 ** 19, 10 ** 6, 2 ** 20, 3 * 2 ** 19, 2 * 10 ** 6,
+               2 ** 21]
+# primes and twice a prime: Bluestein lengths (a prime near 2^21 costs 2 s per call and is left out)
+_LONG_PRIMEY = [65521, 65537, 131071, 2 * 65521, 262139, 524287, 1000003, 1048573, 2 * 524287, 1048583]
+_NEAR = [-3, -2, -1, 1, 2, 3, 5, 16, 1000]
+
+
+def _mix(u):
+    u = (u * 2654435761 + 0x9E3779B9) % 2 ** 32
+    u ^= u >> 15
+    u = (u * 2246822519) % 2 ** 32
+    return u ^ (u >> 13)
+
+
+def _hweighted(*pairs):
+    """Like vp.gens.weighted, but the branch is chosen by a hash of a drawn 32-bit integer. Inside a rare class a small
+    bounded integer does not come out uniform: Hypothesis builds many examples by copying draws between positions of
+    earlier examples, which favours the values that are frequent elsewhere in the example (0, 1, 2 = the first
+    branches; measured: 79 % of the scale cases "long", 3-12 % of the long traces beyond 2^20 instead of 40 %)."""
+    order = [i for i, (w, _) in enumerate(pairs) for _ in range(w)]
+    strs = [s_ for _, s_ in pairs]
+    return st.integers(0, 2 ** 32 - 1).flatmap(lambda u: strs[order[_mix(u) % len(order)]])
+
+
+def _near(b):
+    return st.sampled_from([b + d for d in _NEAR])
+
+
+def _st_long_n(nmax=2 ** 21 + 2 ** 16):
+    parts = [(4, st.sampled_from([v for v in _LONG_ROUND if v <= nmax])), (1, _near(2 ** 16)), (4, _near(2 ** 20)),
+             (2, _near(10 ** 6)), (2, st.integers(2 ** 16, 2 ** 18)), (3, st.integers(2 ** 20 - 5000, 2 ** 20 + 5000)),
+             (1, st.integers(2 ** 16, nmax)), (1, st.sampled_from(_LONG_PRIMEY))]
+    if nmax >= 2 ** 21 + 1000:
+        parts += [(2, _near(2 ** 21)), (1, _near(2 * 10 ** 6))]
+    return _hweighted(*parts)
+
+
+def _seam_positions(n):
+    """sample indices on and right next to the multiples of the block sizes, inside 0..n-1"""
+    out = {0, 1, n - 2, n - 1, n // 2}
+    for b in _SEAMS:
+        for m in range(1, min(n // b, 32) + 1):
+            out.update(b * m + d for d in (-2, -1, 0, 1))
+    return sorted(v for v in out if 0 <= v < n)
+
+
+def _st_value_long(n, intonly):
+    """A shift in (-n, n) for a long trace: the small-n palette plus shifts that are / carry a sample across a multiple
+    of a block size, and the sub-sample / few-sample shifts of real use."""
+    m = n - 1
+    seams = sorted({v + d for b in _SEAMS for v in (b, -b, n - b, b - n) for d in (-1, 0, 1) if abs(v + d) <= m - 1})
+    ints = st.one_of(st.integers(-m, m), st.sampled_from(sorted({0, 1, -1, m, -m, n // 2, -(n // 2)})),
+                     st.sampled_from(seams), st.integers(-64, 64))
+    if intonly:
+        return ints
+    fr = st.one_of(st.sampled_from(seams), st.integers(-m + 1, m - 1), st.integers(-8, 8)).flatmap(
+        lambda k: st.sampled_from([k + 0.5, k - 0.25, k + 1 / 64.0, k + 501 / 1009.0, k - 1e-3]))
+    return st.one_of(ints, fr, fr, st.floats(-float(m), float(m), allow_nan=False, allow_infinity=False),
+                     st.floats(-1.0, 1.0, allow_nan=False))
+
+
+@st.composite
+def _st_scale_long(draw):
+    n = draw(_st_long_n())
+    intonly = draw(st.booleans())
+    values = _st_value_long(n, intonly)
+    kind = draw(st.sampled_from(["shift", "shift", "compose", "pertrace"]))
+    if kind == "shift":
+        op = {"op": "shift", "s": draw(_st_scalar(n, values))}
+    elif kind == "compose":
+        op = {"op": "compose", "a": draw(_st_scalar(n, values)), "b": draw(_st_scalar(n, values))}
+    else:
+        vals = [draw(values), draw(values)]
+        sd = draw(st.sampled_from(["f8", "f8", "f4", "i8", "i4"] if intonly else ["f8", "f8", "f4"]))
+        op = {"op": "pertrace", "values": vals, "sdtype": sd, "sshape": draw(st.sampled_from(["flat", "nd", "keep"])),
+              "smem": draw(st.sampled_from(["plain", "plain", "ro", "strided", "neg"]))}
+    ntr = 2 if kind == "pertrace" else draw(st.sampled_from([1, 1, 2]))
+    pos = st.one_of(st.sampled_from(_seam_positions(n)), st.sampled_from(_seam_positions(n)), st.integers(0, n - 1))
+    return {"mode": "scale", "kind": "long", "n": n, "ntr": ntr,
+            "orient": draw(st.sampled_from(["1d", "rows", "cols"] if ntr == 1 else ["rows", "rows", "cols"])),
+            "negaxis": draw(st.booleans()), "dtype": draw(st.sampled_from(["f8", "f8", "f4"])),
+            "layout": draw(st.sampled_from(["C", "C", "F"])), "freq": draw(st.sampled_from([False, False, False, True])),
+            "sig": draw(st.sampled_from(["noise", "impulses", "sines"] if intonly else ["impulses", "sines", "sines"])),
+            "pos": [draw(pos) for _ in range(draw(st.integers(1, 6)))], "seed": draw(st.integers(0, 2 ** 32 - 1)),
+            "ncomp": draw(st.integers(1, 3)), "band": draw(st.sampled_from(["full", "full", "top", "low"])),
+            "op": op, "dim": draw(_st_dim(30))}
+
+
+_BATCH_ELEMS = 2 ** 22 + 2 ** 10  # waveforms x samples of a batch case: 34 MB per float64 array, ~10 alive at the peak
+
+
+@st.composite
+def _st_scale_batch(draw):
+    ns = draw(st.one_of(st.integers(32, 128), st.sampled_from([32, 33, 40, 61, 64, 82, 121, 127, 128])))
+    cap = _BATCH_ELEMS // ns
+    cands = [b + d for b in (2 ** 15, 5 * 10 ** 4, 2 ** 16, 10 ** 5, 2 ** 17, 2 * 10 ** 5) for d in (-1, 0, 1, 2)
+             if b + d <= cap]
+    nw = draw(st.one_of(st.sampled_from(cands), st.sampled_from(cands), st.integers(2 ** 15, cap)))
+    sig = draw(st.sampled_from(["noise_int", "sines", "sines"]))
+    intonly = sig == "noise_int" or draw(st.sampled_from([False, False, True]))
+    if draw(st.sampled_from([True, True, True, False])):
+        sh = {"kind": "pertrace", "sseed": draw(st.integers(0, 2 ** 32 - 1)),
+              "sdtype": draw(st.sampled_from(["f8", "f8", "f4", "i8", "i4"] if intonly else ["f8", "f8", "f4"])),
+              "sshape": draw(st.sampled_from(["flat", "nd", "keep"])),
+              "smem": draw(st.sampled_from(["plain", "plain", "ro", "strided", "neg"]))}
+    else:
+        m = ns - 1
+        sh = {"kind": "scalar", "s": draw(_st_scalar(ns, st.integers(-m, m)) if intonly else _st_scalar(ns))}
+    return {"mode": "scale", "kind": "batch", "ns": ns, "nw": nw, "sig": sig, "intonly": intonly, "shift": sh,
+            "orient": draw(st.sampled_from(["rows", "rows", "cols"])), "negaxis": draw(st.booleans()),
+            "dtype": draw(st.sampled_from(["f8", "f8", "f4"])), "layout": draw(st.sampled_from(["C", "C", "F"])),
+            "seed": draw(st.integers(0, 2 ** 32 - 1)), "ncomp": draw(st.integers(1, 3)),
+            "band": draw(st.sampled_from(["full", "full", "top", "low"])), "dim": draw(_st_dim(30))}
+
+
+@st.composite
+def _st_scale_parabola(draw):
+    # mostly 3..8 samples per row: only these reach 10^6 / 2^20 rows within 2^23 samples
+    ns = draw(_hweighted((3, st.integers(3, 8)), (1, st.integers(9, 64)), (1, st.sampled_from([16, 32, 64]))))
+    cap = 2 ** 23 // ns
+    cands = [b + d for b in (2 ** 16, 10 ** 5, 2 ** 17, 2 ** 18, 2 ** 19, 10 ** 6, 2 ** 20, 2 * 10 ** 6, 2 ** 21)
+             for d in (-1, 0, 1) if b + d <= cap]
+    nrows = draw(_hweighted((2, st.sampled_from(cands[-6:])), (1, st.sampled_from(cands)), (1, st.integers(2 ** 16, cap))))
+    return {"mode": "scale", "kind": "parabola", "ns": ns, "nrows": nrows, "seed": draw(st.integers(0, 2 ** 32 - 1)),
+            "dtype": draw(st.sampled_from(["f8", "f8", "f4"])), "layout": draw(st.sampled_from(["C", "C", "F", "ro"]))}
+
+
+@st.composite
+def _st_scale_cluster(draw, tier):
+    sizes = [(2, [8191, 8192, 8193]), (2, [9999, 10000, 10001])]  # 150 us per spike: 1.2 s, 1.5 s per case
+    if tier == "thorough":
+        sizes += [(2, [16383, 16384, 16385]), (1, [32767, 32768, 32769]), (1, [65535, 65536, 65537])]  # 2.5 - 10 s
+    return {"mode": "scale", "kind": "cluster", "comps": draw(_st_comps()),
+            "nspikes": draw(_hweighted(*[(w, st.sampled_from(v)) for w, v in sizes])),
+            "ntraces": draw(st.integers(1, 2)), "smax": draw(st.sampled_from([1.5, 4.0, 20.0])),
+            "pad": draw(st.floats(0.0, 8.0)), "extra": draw(st.integers(0, 1)), "coff": draw(st.floats(-1.0, 1.0)),
+            "seed": draw(st.integers(0, 2 ** 32 - 1)), "sign": draw(st.sampled_from([1.0, -1.0])),
+            "dtype": draw(st.sampled_from(["f8", "f8", "f4"])), "layout": draw(st.sampled_from(["C", "C", "F"]))}
+
+
+@st.composite
+def _st_scale_corrmax(draw):
+    n = draw(_st_long_n(2 ** 20 + 5000))
+    pos = st.one_of(st.sampled_from(_seam_positions(n)), st.sampled_from(_seam_positions(n)), st.integers(0, n - 1))
+    return {"mode": "scale", "kind": "corrmax", "n": n, "comps": draw(_st_comps()), "s": draw(_st_delay()),
+            "pos": [draw(pos) for _ in range(draw(st.integers(1, 3)))], "coff": draw(st.floats(-1.0, 1.0)),
+            "seed": draw(st.integers(0, 2 ** 32 - 1)), "scale": draw(st.sampled_from([1.0, 1.0, 1e-6, 37.5, -80.0])),
+            "dtype": draw(st.sampled_from(["f8", "f8", "f4"])), "copy": draw(st.sampled_from(["fshift", "analytic"]))}
+
+
+# weights of the kinds inside the scale class
+_SCALE_KINDS = [("long", 10), ("batch", 4), ("parabola", 5), ("corrmax", 2), ("cluster", 1)]
+
+
+def _st_scale(tier):
+    kinds = {"long": _st_scale_long(), "batch": _st_scale_batch(), "parabola": _st_scale_parabola(),
+             "cluster": _st_scale_cluster(tier), "corrmax": _st_scale_corrmax()}
+    return _hweighted(*[(w, kinds[k]) for k, w in _SCALE_KINDS])
+
+
 _SUB = {"basis_big": _st_basis(True), "basis": _st_basis(False), "sines": _st_sines(), "corrmax": _st_corrmax(),
         "cluster": _st_cluster(), "parabola": _st_parabola(), "model": _st_model()}
 # weights out of 20; large-n basis cases are the expensive ones (0.1-1 s each)
@@ -330,8 +507,12 @@ def _case(draw, tier):
     return draw(_SUB[draw(st.sampled_from(modes))])
 
 
+# share of the real-data-scale class (per mille of the generated cases; measured 2.5-4.2 % of the quick cases at 40): a case costs 0.2-3 s
+_SCALE_SHARE = {"quick": 30, "thorough": 20}
+
+
 def strategy(tier):
-    return _case(tier)
+    return weighted((1000 - _SCALE_SHARE[tier], _case(tier)), (_SCALE_SHARE[tier], _st_scale(tier)))
 
 
 # =================================================================================================
@@ -1082,8 +1263,423 @@ def _run_model(case, ctx):
                               f"(deviation {ep:.3g})")
 
 
+# =================================================================================================
+# mode: scale (real-data sizes; every oracle is vectorised or known by construction)
+
+def _scale_labels(ctx, kind, size):
+    """size = length of the axis a blockwise implementation would cut (samples / waveforms / rows / spikes)"""
+    ctx.label("scale", "scale_" + kind)
+    for name, b in (("scale_2^16", 2 ** 16), ("scale_10^5", 10 ** 5), ("scale_10^6", 10 ** 6), ("scale_2^20", 2 ** 20),
+                    ("scale_2^21", 2 ** 21)):
+        if size > b:
+            ctx.label(name)  # the axis crosses a seam at b
+    if any(abs(size - b) <= 3 for b in _SEAMS + [2 ** 13, 10 ** 4, 2 ** 14, 2 ** 15, 5 * 10 ** 4, 2 * 10 ** 5]):
+        ctx.label("scale_size_next_to_block")
+
+
+def _near_seam(v, n, within=2):
+    """True when sample index v lies within `within` samples of a multiple of a block size (or of the ends of the trace)"""
+    v = int(v) % n
+    return v <= within or v >= n - 1 - within or any(min(v % b, b - v % b) <= within for b in _SEAMS if b <= n)
+
+
+def _orient(x2, orient, negaxis):
+    """(array, axis) for a (traces, samples) float array: 1-D, traces as rows, or traces as columns"""
+    if orient == "1d":
+        return x2[0], (-1 if negaxis else 0)
+    if orient == "cols":
+        return x2.T, (-2 if negaxis else 0)
+    return x2, (-1 if negaxis else 1)
+
+
+def _run_scale_long(case, ctx):
+    n, ntr, dt, op = case["n"], case["ntr"], case["dtype"], case["op"]
+    _scale_labels(ctx, "long", n)
+    rng = np.random.default_rng(case["seed"])
+    if op["op"] == "shift":
+        s = _mk_scalar(op["s"])
+        parts = [(_val(s),)] * ntr
+        tol, kind = _tol(dt, _val(s)), None
+        ctx.label("scalar_" + op["s"]["st"])
+    elif op["op"] == "compose":
+        a, b = _mk_scalar(op["a"]), _mk_scalar(op["b"])
+        parts = [(_val(a), _val(b))] * ntr
+        tol, kind = _tol(dt, _val(a), _val(b)), "C07.compose"
+        ctx.label("compose")
+    else:
+        vals = np.array([float(v) for v in op["values"]][:ntr], dtype=np.float64).astype(SDT[op["sdtype"]])
+        exact = vals.astype(np.float64)
+        parts = [(float(v),) for v in exact]
+        tol, kind = _tol(dt, float(np.max(np.abs(exact)))), "C07.pertrace"
+        ctx.label("pertrace", "pertrace_" + op["sdtype"], "pertrace_" + op["sshape"], "shiftmem_" + op["smem"])
+    kfs = [od.split_shift(*p) for p in parts]
+    anyfrac = any(od.split_shift(v)[1] != 0 for p in parts for v in p)
+    kind = kind or ("C07.frac_delay" if anyfrac else "C07.int_roll")
+    sig = case["sig"]
+    if anyfrac and sig == "noise":
+        sig = "impulses"  # no closed form for a fractional delay of white noise (and it has energy at Nyquist)
+    nyq_free = anyfrac and n % 2 == 0
+    ctx.label("scale_sig_" + sig, "shift_frac" if anyfrac else "shift_int", "dtype_" + dt,
+              "n_even" if n % 2 == 0 else "n_odd", f"scale_ntr{ntr}", "spectral" if case["freq"] else "time")
+    pos = sorted({int(p) % n for p in case["pos"]})
+    t = np.arange(n)
+    alt = 1.0 - 2.0 * (t % 2)
+    x = np.zeros((ntr, n))
+    e = np.zeros((ntr, n))
+    for j, (k, f) in enumerate(kfs):
+        if sig == "noise":
+            x[j] = rng.uniform(-1.0, 1.0, n)
+            x[j, pos] = rng.choice([-1.0, 1.0], size=len(pos))  # full-scale samples on the seams
+            e[j] = np.roll(x[j], k)
+        elif sig == "impulses":
+            amps = rng.uniform(0.3, 1.0, len(pos)) * rng.choice([-1.0, 1.0], size=len(pos))
+            amps[0] = 1.0
+            x[j, pos] = amps
+            if nyq_free:
+                x[j] -= float(np.sum(amps * (1.0 - 2.0 * (np.array(pos) % 2)))) * alt / n  # empties the Nyquist bin
+            if f == 0:
+                e[j] = np.roll(x[j], k)
+            else:
+                e0 = od.delayed_impulse(n, k, f, nyq_free)  # one Dirichlet kernel, placed at every impulse
+                for p, a_ in zip(pos, amps):
+                    e[j] += a_ * np.roll(e0, p)
+        else:
+            fr, am, ph = _sine_params(rng, n, case["ncomp"], case["band"])
+            x[j] = od.sines(n, fr, am, ph, 0, 0.0)
+            e[j] = od.sines(n, fr, am, ph, k, f)
+    # seam-relevant: the signal is dense, or an impulse (before or after the delay) sits next to a block boundary
+    if sig != "impulses" or any(_near_seam(p, n) or _near_seam(p + k, n) for p in pos for k, _ in kfs):
+        ctx.nontrivial = True
+    xin, axis = _orient(x, case["orient"], case["negaxis"])
+    ein = _orient(e, case["orient"], case["negaxis"])[0]
+    xin = _layout(xin.astype(DT[dt]), case["layout"] if xin.ndim == 2 else "C")
+    ax = axis % xin.ndim
+    ctx.label("scale_" + case["orient"], "layout_" + case["layout"])
+    sh = _Shifter(ctx, n, axis, case["freq"], dt, case.get("dim"))
+    what = f"scale long n={n} traces={ntr} {case['orient']} axis={axis} {dt} signal={sig}"
+    if op["op"] == "shift":
+        y = sh(xin, s, f"{what} shift {s!r}")
+    elif op["op"] == "compose":
+        y = sh(xin, a, f"{what} compose first {a!r}")
+        if y is not None:
+            y = y.astype(DT[dt]) if case["freq"] else y
+            y = sh(y, b, f"{what} compose second {b!r}")
+    else:
+        s_arr = _shape_pertrace(vals, op, xin.shape, ax)
+        y = sh(xin, s_arr, f"{what} per-trace shifts {exact.tolist()}")
+    if y is None:
+        return
+    d = np.abs(np.asarray(y, dtype=np.float64) - ein)
+    err = float(np.max(d))
+    ctx.stat("err_scale_long_over_tol_" + dt, err / tol)
+
+    def where():
+        i = np.unravel_index(int(np.argmax(d)), d.shape)
+        return f"largest deviation {err:.3g} at index {tuple(int(v) for v in i)}"
+
+    ctx.check(err <= tol, kind, lambda: f"{what}, shifts {parts[:2]}: result differs from the exact delay ({where()}, "
+                                        f"tolerance {tol:.3g})")
+    if not anyfrac and op["op"] != "compose":
+        # integer shifts: the literal roll of the array that was handed in, trace by trace
+        x64 = np.asarray(xin, dtype=np.float64)
+        er = 0.0
+        for j, (k, _) in enumerate(kfs):
+            sl = (slice(None),) if xin.ndim == 1 else ((j, slice(None)) if ax == 1 else (slice(None), j))
+            er = max(er, float(np.max(np.abs(np.asarray(y[sl], dtype=np.float64) - np.roll(x64[sl], k)))))
+        ctx.stat("err_scale_long_roll_over_tol_" + dt, er / tol)
+        ctx.check(er <= tol, "C07.int_roll" if kind != "C07.pertrace" else kind,
+                  lambda: f"{what}, integer shifts {[k for k, _ in kfs]}: fshift(x, k) != roll(x, k) by {er:.3g}")
+
+
+def _rows_shifts(rng, nw, ns, intonly):
+    """one shift in (-ns, ns) per waveform: integers, half-integers, dyadic fractions, arbitrary doubles, sub-sample"""
+    m = ns - 1
+    k = rng.integers(-m, m + 1, nw).astype(np.float64)
+    if intonly:
+        return k
+    kk = rng.integers(-m, m, nw).astype(np.float64)
+    which = rng.integers(0, 5, nw)
+    v = np.where(which == 0, k, kk + 0.5)
+    v = np.where(which == 2, kk + rng.integers(1, 64, nw) / 64.0, v)
+    v = np.where(which == 3, rng.uniform(-m, m, nw), v)
+    return np.where(which == 4, rng.uniform(-1.0, 1.0, nw), v)
+
+
+def _sines_rows(ns, freq, amp, phase, k, f):
+    """od.sines for many rows at once: row r = sum_c amp[r,c] cos(2 pi freq[r,c] (t - k[r] - f[r]) / ns + phase[r,c]);
+    the integer part of the argument is reduced modulo ns in integer arithmetic."""
+    tk = np.arange(ns, dtype=np.int64)[None, :] - k.astype(np.int64)[:, None]
+    out = np.zeros((len(k), ns))
+    for c in range(freq.shape[1]):
+        fr = freq[:, c].astype(np.int64)
+        red = (fr[:, None] * tk) % ns
+        out += amp[:, c, None] * np.cos(2 * np.pi * (red / ns) + (phase[:, c] - 2 * np.pi * fr * f / ns)[:, None])
+    return out
+
+
+def _run_scale_batch(case, ctx):
+    ns, nw, dt, sig, shd = case["ns"], case["nw"], case["dtype"], case["sig"], case["shift"]
+    _scale_labels(ctx, "batch", nw)
+    ctx.nontrivial = True  # every waveform is different and (per-trace) has its own shift: any block of rows shows
+    rng = np.random.default_rng(case["seed"])
+    if shd["kind"] == "scalar":
+        s = _mk_scalar(shd["s"])
+        vals = None
+        exact = np.full(nw, _val(s))
+        ctx.label("scalar_" + shd["s"]["st"])
+    else:
+        vals = _rows_shifts(np.random.default_rng(shd["sseed"]), nw, ns, case["intonly"]).astype(SDT[shd["sdtype"]])
+        exact = vals.astype(np.float64)
+        ctx.label("pertrace", "pertrace_" + shd["sdtype"], "pertrace_" + shd["sshape"], "shiftmem_" + shd["smem"])
+    k = np.round(exact)
+    f = exact - k  # exact: |exact| < 128
+    anyfrac = bool(np.any(f != 0))
+    if anyfrac and sig == "noise_int":
+        sig = "sines"
+    ctx.label("scale_sig_" + sig, "shift_frac" if anyfrac else "shift_int", "dtype_" + dt, "layout_" + case["layout"],
+              "scale_" + case["orient"], "n_even" if ns % 2 == 0 else "n_odd")
+    t = np.arange(ns)
+    if sig == "noise_int":
+        x = rng.uniform(-1.0, 1.0, (nw, ns))
+    else:
+        fmax = (ns - 1) // 2
+        lo = max(0, fmax - 2) if case["band"] == "top" else 0
+        hi = min(fmax, 3) if case["band"] == "low" else fmax
+        freq = rng.integers(lo, hi + 1, size=(nw, case["ncomp"]))
+        amp = rng.uniform(0.1, 1.0, size=(nw, case["ncomp"]))
+        amp /= amp.sum(axis=1, keepdims=True)
+        phase = rng.uniform(-np.pi, np.pi, size=(nw, case["ncomp"]))
+        x = _sines_rows(ns, freq, amp, phase, np.zeros(nw), np.zeros(nw))
+    xin, axis = _orient(x, case["orient"], case["negaxis"])
+    xin = _layout(xin.astype(DT[dt]), case["layout"])
+    if sig == "noise_int":
+        # any signal, integer shifts: the roll of each waveform as handed in, by its own number of samples
+        e = np.take_along_axis(np.asarray(xin if case["orient"] != "cols" else xin.T, dtype=np.float64),
+                               (t[None, :] - k.astype(np.int64)[:, None]) % ns, axis=1)
+    else:
+        e = _sines_rows(ns, freq, amp, phase, k, f)
+    del x
+    ax = axis % 2
+    sh = _Shifter(ctx, ns, axis, False, dt, case.get("dim"))
+    what = f"scale batch {nw} waveforms x {ns} samples {case['orient']} axis={axis} {dt} signal={sig}"
+    if vals is None:
+        y = sh(xin, s, f"{what} shift {s!r}")
+    else:
+        y = sh(xin, _shape_pertrace(vals, shd, xin.shape, ax), f"{what} one shift per waveform")
+    if y is None:
+        return
+    y = np.asarray(y, dtype=np.float64)
+    d = np.max(np.abs((y.T if case["orient"] == "cols" else y) - e), axis=1)
+    err = float(np.max(d))
+    tol = _tol(dt, float(np.max(np.abs(exact))))
+    ctx.stat("err_scale_batch_over_tol_" + dt, err / tol)
+    kind = "C07.pertrace" if vals is not None else ("C07.frac_delay" if anyfrac else "C07.int_roll")
+
+    def detail():
+        bad = np.flatnonzero(d > tol)
+        return (f"{bad.size} waveforms are not delayed by their own shift, first {int(bad[0])} (shift "
+                f"{exact[bad[0]]!r}), last {int(bad[-1])}, largest deviation {err:.3g}")
+
+    ctx.check(err <= tol, kind, lambda: f"{what}: {detail()}")
+
+
+def _run_scale_parabola(case, ctx):
+    ns, nrows, dt, lay = case["ns"], case["nrows"], case["dtype"], case["layout"]
+    _scale_labels(ctx, "parabola", nrows)
+    ctx.label("parabola_2d", "dtype_" + dt, "layout_" + lay)
+    rng = np.random.default_rng(case["seed"])
+    a = rng.uniform(-100.0, 100.0, nrows)
+    b = 10.0 ** rng.uniform(-3.0, 1.0, nrows)
+    which = rng.integers(0, 3, nrows)
+    c = np.where(which == 0, rng.uniform(-2.0, ns + 1.0, nrows), rng.integers(0, ns, nrows).astype(np.float64))
+    c = np.where(which == 1, rng.uniform(0.51, ns - 1.51 if ns > 3 else 0.9, nrows), c)
+    i = np.arange(ns)
+    x = (a[:, None] - b[:, None] * (i[None, :] - c[:, None]) ** 2).astype(PDT[dt])
+    arg = _layout(x, "F" if lay == "F" else "C")
+    if lay == "ro":
+        arg.flags.writeable = False
+    arg0 = arg.copy()
+    r = ctx.call("C07.parabolic_max", sut.utils().parabolic_max, arg)
+    if r is ctx.CRASH:
+        return
+    _untouched(ctx, arg, arg0, "parabolic_max")
+    if not ctx.check(isinstance(r, tuple) and len(r) == 2 and np.shape(r[0]) == (nrows,) and np.shape(r[1]) == (nrows,),
+                     "C07.parabola", lambda: f"parabolic_max on {arg.shape} does not return two arrays of {nrows} values"):
+        return
+    ip, mx = np.asarray(r[0], dtype=np.float64), np.asarray(r[1], dtype=np.float64)
+    xs = np.asarray(x, dtype=np.float64)
+    rows = np.arange(nrows)
+    im = np.argmax(xs, axis=1)
+    top = xs[rows, im]
+    edge = (im == 0) | (im == ns - 1)
+    inner = ~edge
+    iml, imr = np.maximum(im - 1, 0), np.minimum(im + 1, ns - 1)
+    if dt == "f8":
+        judged = inner
+        vi, vm = c, a  # by construction
+    else:
+        # rounded samples: the parabola through the three samples actually passed; rows whose maximum occurs twice
+        # are judged only when the two are adjacent interior samples (as in the small cases)
+        ntop = np.sum(xs == top[:, None], axis=1)
+        judged = inner & ((ntop == 1) | ((ntop == 2) & (xs[rows, imr] == top) & (imr < ns - 1)))
+        ym, y0, yp = xs[rows, iml].astype(od.LD), top.astype(od.LD), xs[rows, imr].astype(od.LD)
+        pa = (ym + yp) / 2 - y0
+        pb = (yp - ym) / 2
+        v = np.where(pa == 0, od.LD(0), -pb / np.where(pa == 0, od.LD(1), 2 * pa))
+        vi, vm = (im + v).astype(np.float64), (y0 + pb * v + pa * v * v).astype(np.float64)
+    ctx.nontrivial = bool(np.any(judged & (vi != np.round(vi))))
+    bad_edge = edge & ~((ip == im) & (mx == top))
+    ei = np.where(judged, np.abs(ip - vi), 0.0)
+    em = np.where(judged, np.abs(mx - vm) / (1 + np.abs(vm)), 0.0)
+    ei[~np.isfinite(ei)] = np.inf
+    em[~np.isfinite(em)] = np.inf
+    ctx.label("vertex_at_edge" if np.any(edge) else "no_edge_row", "vertex_interior")
+    ctx.stat("err_scale_parabola_vertex", float(np.max(ei)))
+    ctx.stat("err_scale_parabola_value", float(np.max(em)))
+    bad = bad_edge | (ei > 1e-6) | (em > 1e-6)
+
+    def detail():
+        w = np.flatnonzero(bad)
+        j = int(w[0])
+        return (f"{w.size} of {nrows} rows wrong (first {j}, last {int(w[-1])}); row {j}: samples around the maximum "
+                f"{xs[j, iml[j]:imr[j] + 1].tolist()} at index {int(im[j])} (ns={ns}, {dt}, layout {lay}), got vertex "
+                f"{ip[j]!r}, value {mx[j]!r}, expected ({(vi[j] if inner[j] else im[j])!r}, "
+                f"{(vm[j] if inner[j] else top[j])!r})")
+
+    ctx.check(not np.any(bad), "C07.parabola", detail)
+
+
+def _run_scale_cluster(case, ctx):
+    comps, nsp, ntr, dt = case["comps"], case["nspikes"], case["ntraces"], case["dtype"]
+    _scale_labels(ctx, "cluster", nsp)
+    rng = np.random.default_rng(case["seed"])
+    smax = float(case["smax"])
+    delays = rng.uniform(-2, 2, size=ntr)
+    n, c = _spike_window(comps, smax + 2, case["pad"], case["extra"], case["coff"])
+    amps = rng.uniform(0.05, 0.7, size=ntr) * rng.choice([-1.0, 1.0], size=ntr)
+    ipk = int(rng.integers(0, ntr))
+    amps[ipk] = 1.0
+    amps *= case["sign"]
+    delays[ipk] = 0.0
+    # a minority (30 %) of the spikes is delayed, each by its own amount: the median template stays the undelayed one
+    member = rng.random(nsp) < 0.3
+    idx = np.arange(nsp)
+    for b in (2 ** 10, 2 ** 12, 2 ** 13, 2 ** 14, 2 ** 15, 2 ** 16, 10 ** 3, 10 ** 4):
+        member |= np.minimum(idx % b, b - idx % b) <= 1  # and every spike on / next to a multiple of a block size
+    member[:2] = True
+    member[-2:] = True
+    which = rng.integers(0, 3, nsp)
+    applied = np.where(which == 0, rng.uniform(-smax, smax, nsp),
+                       np.where(which == 1, rng.integers(-int(smax), int(smax) + 1, nsp).astype(np.float64),
+                                np.round(rng.uniform(-smax, smax, nsp), 2)))
+    applied = np.where(member, applied, 0.0)
+    t = np.arange(n)
+    normal = np.stack([amps[j] * od.spike(t - delays[j], c, comps) for j in range(ntr)])  # (trace, time)
+    wf = amps[None, :, None] * od.spike(t[None, None, :] - delays[None, :, None] - applied[:, None, None], c, comps)
+    ctx.label("cluster", "ntraces1" if ntr == 1 else "ntraces>1", "dtype_" + dt, "layout_" + case["layout"],
+              "negative_peak" if case["sign"] < 0 else "positive_peak")
+    ctx.nontrivial = True
+    wf_in = _layout(wf.astype(DT[dt]), case["layout"])
+    del wf
+    slope = od.spike_max_slope(comps)
+    r = ctx.call("C07.shift_waveform", sut.waveforms().shift_waveform, wf_in)
+    if r is ctx.CRASH:
+        return
+    if not ctx.check(isinstance(r, tuple) and len(r) == 2 and np.shape(r[0]) == wf_in.shape and np.shape(r[1]) == (nsp,),
+                     "C07.cluster_shape", "shift_waveform does not return (array like the input, one shift per spike)"):
+        return
+    out, sa = r
+    dd = np.abs(np.asarray(sa, dtype=np.float64) + applied)
+    d = float(np.max(dd))
+    ctx.stat("err_scale_cluster_shift", d)
+    ctx.check(d <= TOL_DELAY, "C07.cluster_shift",
+              lambda: f"{nsp} spikes, {int(member.sum())} delayed by up to {smax}: shift_applied is not minus the delay "
+                      f"for {int(np.sum(dd > TOL_DELAY))} spikes, first {int(np.argmax(dd > TOL_DELAY))} (applied "
+                      f"{applied[int(np.argmax(dd > TOL_DELAY))]!r}, returned {sa[int(np.argmax(dd > TOL_DELAY))]!r})")
+    er = np.max(np.abs(np.asarray(out, dtype=np.float64) - normal[None]), axis=2) / (np.abs(amps) * slope)[None, :]
+    erm = float(np.max(er))
+    ctx.stat("err_scale_cluster_realign_over_slope", erm)
+    ctx.check(erm <= TOL_DELAY + 1e-4, "C07.cluster_realign",
+              lambda: f"{nsp} spikes: re-aligned waveforms deviate from the unshifted ones by {erm:.3g} x max slope "
+                      f"(first spike {int(np.argmax(np.max(er, axis=1) > TOL_DELAY + 1e-4))})")
+
+
+def _run_scale_corrmax(case, ctx):
+    n, comps, s, dt, scale = case["n"], case["comps"], case["s"], case["dtype"], case["scale"]
+    _scale_labels(ctx, "corrmax", n)
+    rng = np.random.default_rng(case["seed"])
+    hw = od.spike_halfwidth(comps)
+    marg = int(np.ceil(hw + abs(s) + 4))  # the spike and its delayed copy stay inside the trace
+    reach = int(np.ceil(13 * max(cp[1] for cp in comps) + max(abs(cp[2]) for cp in comps) + abs(s))) + 4  # exp(-84) beyond
+    cents, amps = [], []
+    for i, p in enumerate(case["pos"]):
+        p = min(max(int(p), marg), n - 1 - marg)
+        if all(abs(p - q) > 2 * reach + 2 for q in cents):  # separate spikes: the correlation peak keeps its shape
+            cents.append(p)
+            amps.append(1.0 if i == 0 else float(rng.uniform(0.1, 0.35)) * float(rng.choice([-1.0, 1.0])))
+    ctx.label("corrmax", "dtype_" + dt, "copy_" + case["copy"], f"scale_nspikes{len(cents)}",
+              "n_even" if n % 2 == 0 else "n_odd")
+    k, f = od.split_shift(s)
+    ctx.label("shift_frac" if f != 0 else "shift_int")
+    if any(_near_seam(p, n, reach) or abs(p - n // 2) <= reach for p in cents):  # a spike straddles a block boundary
+        ctx.nontrivial = True
+
+    def trace(delay):
+        out = np.zeros(n)
+        for p, a_ in zip(cents, amps):
+            lo, hi = max(0, p - reach), min(n, p + reach + 1)
+            out[lo:hi] += a_ * od.spike(np.arange(lo, hi) - delay, p + case["coff"], comps)
+        return scale * out
+
+    x = trace(0.0).astype(DT[dt])
+    if case["copy"] == "fshift":
+        x0 = x.copy()
+        x2 = ctx.call("C07.fshift", sut.fourier().fshift, x, s)
+        if x2 is ctx.CRASH:
+            return
+        _untouched(ctx, x, x0, "fshift(long trace)")
+        if not ctx.check(isinstance(x2, np.ndarray) and x2.shape == x.shape and x2.dtype == x.dtype, "C07.shape_dtype",
+                         lambda: f"fshift({x.dtype}{x.shape}) -> {getattr(x2, 'dtype', None)}{getattr(x2, 'shape', None)}"):
+            return
+        ea = _err(x2, trace(s)) / abs(scale)
+        ctx.stat("err_scale_spike_fshift_vs_analytic", ea)
+        ctx.check(ea <= 1e-4, "C07.frac_delay", lambda: f"n={n}: fshift(trace of spikes at {cents}, {s}) differs from the "
+                                                       f"analytically delayed trace by {ea:.3g} of its amplitude")
+    else:
+        x2 = trace(s).astype(DT[dt])
+    xa, xb = x.copy(), x2.copy()
+    r = ctx.call("C07.corrmax", sut.waveforms().wave_shift_corrmax, x, x2)
+    if r is ctx.CRASH:
+        return
+    _untouched(ctx, x, xa, "wave_shift_corrmax(trace, .)")
+    _untouched(ctx, x2, xb, "wave_shift_corrmax(., trace2)")
+    if not ctx.check(isinstance(r, tuple) and len(r) == 2 and np.ndim(r[1]) == 0 and np.shape(r[0]) == x.shape,
+                     "C07.corrmax_shape", "wave_shift_corrmax does not return (array like the input, scalar)"):
+        return
+    rs, sc = r
+    slope = abs(scale) * od.spike_max_slope(comps)
+    d = abs(float(sc) - s)
+    ctx.stat("err_scale_corrmax_shift", d)
+    ctx.check(d <= TOL_DELAY, "C07.corrmax_shift",
+              lambda: f"n={n} spikes at {cents} comps={comps} applied shift {s}: estimated {float(sc):.4f} (off by "
+                      f"{d:.3g} sample)")
+    er = _err(rs, np.asarray(xa, dtype=np.float64))
+    ctx.stat("err_scale_corrmax_realign_over_slope", er / slope)
+    ctx.check(er <= TOL_DELAY * slope + 1e-5 * abs(scale), "C07.corrmax_realign",
+              lambda: f"n={n} spikes at {cents} comps={comps} shift {s}: re-aligned copy deviates from the original by "
+                      f"{er:.3g} = {er / slope:.3g} x max slope")
+
+
+_SCALE = {"long": _run_scale_long, "batch": _run_scale_batch, "parabola": _run_scale_parabola,
+          "cluster": _run_scale_cluster, "corrmax": _run_scale_corrmax}
+
+
+def _run_scale(case, ctx):
+    _SCALE[case["kind"]](case, ctx)
+
+
 _MODES = {"basis": _run_basis, "sines": _run_sines, "corrmax": _run_corrmax, "cluster": _run_cluster,
-          "parabola": _run_parabola, "model": _run_model}
+          "parabola": _run_parabola, "model": _run_model, "scale": _run_scale}
 
 
 def run_case(case, ctx):
